@@ -108,14 +108,26 @@ def _compare(got, ref, tol, stats, what):
         raise Violation('%s: coefficient %d is %r, reference %r (rel. err %.2e > %.0e)' % (what, d, got[d].item(), ref[d].item(), e, tol))
 
 
+def _operand(case, x):
+    """the UTPM operand in the memory layout the case asks for: C-contiguous copy, Fortran-ordered copy, or a transposed view
+    x.T of a polynomial whose coefficients are stored transposed (same values, other strides)"""
+    lay = case.get('layout', 'C')
+    if lay == 'F':
+        return UTPM(np.asfortranarray(x.copy()))
+    if lay == 'T' and x.ndim >= 4:
+        axes = (0, 1) + tuple(range(x.ndim - 1, 1, -1))
+        y = UTPM(np.ascontiguousarray(x.transpose(axes)))     # coefficients stored transposed
+        return y.T                                             # a view with the values and shape of x
+    return UTPM(x.copy())
+
+
 def prop_unary(case, stats):
     name = case['f']
     call, fmp, _, _, tol = UNARY[name]
     if case['entry'] == 'method':
         call = METHOD[name]
     x = case['x']
-    xin = x.copy()
-    y = guard(call, UTPM(xin))
+    y = guard(call, _operand(case, x))
     if not isinstance(y, UTPM):
         raise Violation('%s returned %s' % (name, type(y).__name__))
     if y.data.shape != x.shape:
@@ -144,6 +156,7 @@ def _classes0(case):
     if gen.distinct_bases(x):
         c.append('distinct-bases')
     c.append('entry=' + str(case.get('entry')))
+    c.append('layout=' + str(case.get('layout', 'C')))
     return c
 
 
@@ -173,7 +186,7 @@ def unary_cases(draw, name, tier):
     pos = None
     if n > 6:
         pos = draw(st.lists(st.integers(0, n - 1), min_size=4, max_size=4, unique=True))
-    return {'f': name, 'entry': entry, 'x': x, 'pos': pos}
+    return {'f': name, 'entry': entry, 'x': x, 'pos': pos, 'layout': draw(st.sampled_from(['C', 'C', 'F', 'T']))}
 
 
 # ---------------------------------------------------------------------------
@@ -228,7 +241,7 @@ def param_cases(draw, name, tier):
 def prop_pow(case, stats):
     kind = case['kind']
     x = case['x']
-    X = UTPM(x.copy())
+    X = _operand(case, x)
     if kind in ('int', 'negint', 'real'):
         r = case['r']
         via = case['entry']
@@ -261,10 +274,10 @@ def prop_pow(case, stats):
 def pow_cases(draw, kind, tier):
     D, P = draw(gen.dims(Dmax=6 if tier == 'quick' else 10, Pmax=4))
     shape = draw(gen.shapes(max_rank=2, max_side=3))
-    case = {'kind': kind, 'pos': None, 'entry': draw(st.sampled_from(['operator', 'method']))}
+    case = {'kind': kind, 'pos': None, 'entry': draw(st.sampled_from(['operator', 'method'])), 'layout': draw(st.sampled_from(['C', 'C', 'F', 'T']))}
     if kind == 'int':
-        case['r'] = draw(st.integers(0, 5))
-        base = st.one_of(R((-3, 3)), st.sampled_from([0.0, 1.0, -1.0, 2.0]))
+        case['r'] = draw(st.sampled_from([2, 3, 4, 5, 6, 7, 8, 10, 12, 0, 1, 9, 11]))
+        base = st.one_of(R((-1.5, 1.5)), st.sampled_from([0.0, 1.0, -1.0, 1.5]))
         case['x'] = draw(gen.utpm_data(D, P, shape, base))
     elif kind == 'negint':
         case['r'] = draw(st.integers(-4, -1))
